@@ -54,6 +54,7 @@ impl Property for C17S {
 
     fn generate(rng: &mut Rng, tier: Tier, _i: u64) -> Scn {
         let irqs = rng.chance(1, 2);
+        let slow_bus = rng.chance(1, 4);
         let mut blocks = Vec::new();
         let mut handlers = Vec::new();
         if irqs {
@@ -93,7 +94,7 @@ impl Property for C17S {
         blocks.push(Block::Store { addr: 0xffff80, val: gen_tcr(rng, a, b), short: rng.chance(1, 2) });
         let n = rng.range(3, if tier == Tier::Quick { 30 } else { 80 });
         for _ in 0..n {
-            blocks.push(match rng.below(16) {
+            blocks.push(match rng.below(if slow_bus { 18 } else { 16 }) {
                 0..=4 => {
                     let hi = if rng.chance(1, 6) { 3000 } else { 120 };
                     Block::Delay(rng.range(1, hi) as u16)
@@ -129,6 +130,11 @@ impl Property for C17S {
                 11 if use_traps => Block::Trapa(rng.range(1, 3) as u8),
                 12 => Block::Arith(rng.u8()),
                 13 => Block::SetCcr(if irqs && rng.chance(1, 2) { 0x80 } else { 0x00 }),
+                14 if slow_bus => match rng.below(3) {
+                    0 => Block::Store { addr: *rng.pick(&[0xfee020u32, 0xfee021, 0xfee022, 0xfee023, 0xfee026]), val: *rng.pick(&[0xffu8, 0x00, 0xcf, 0xfb, 0xe0, 0x30, 0xaa]), short: false },
+                    1 => Block::Store { addr: 0xfee023, val: 0xff, short: false },
+                    _ => Block::Heavy,
+                },
                 _ => Block::Delay(rng.range(1, 20) as u16),
             });
         }
@@ -140,7 +146,7 @@ impl Property for C17S {
         let guest = GuestSpec {
             blocks,
             handlers,
-            code_dram: rng.chance(1, 3),
+            code_dram: rng.chance(1, 3) || (slow_bus && rng.chance(1, 2)),
             stack_dram: rng.chance(1, 3),
             data_dram: rng.chance(1, 3),
             vec_top: rng.u8(),
